@@ -1,7 +1,357 @@
-// correspondence + search binary for property C01 (stub)
+// C01 — hand strength ordering is exactly the poker hand ranking (standard and short-deck builds).
+//
+// correspondence:  `eval <cfg> <bits>` -> `<variant index> <r1> <r2> <kicker mask>` of the real
+//                  `Strength::from(Hand::from(bits))`, and `cmp <cfg> <a> <b>` -> `Strength::cmp`.
+//                  The variant index is measured with the real derived `Ord` of `Ranking`.
+// search oracle:   a brute-force best-five evaluator written from the rules of poker (category by
+//                  multiplicity pattern / flush / straight, tie-break = ranks ordered by
+//                  (multiplicity, rank); short deck: flush > full house, A-6-7-8-9 lowest straight).
+//                  It never looks at the Lean model or at the engine's data structures.
+//                  (1) all five-card hands are sorted by the oracle value and every adjacent pair is
+//                      compared with `Strength::cmp` (Less/Equal expected) — the engine order being a
+//                      total preorder, this decides the whole order on five-card hands;
+//                  (2) every 6/7-card hand must compare Equal to its own best five cards;
+//                  (3) random pairs of 5/6/7-card hands, pairs across adjacent categories.
+// known finding:   two non-straight flushes with the same top card and different lower cards compare
+//                  Equal -> class `flush-lower-cards-ignored`.  Everything else is a violation.
+use robopoker::cards::card::Card;
+use robopoker::cards::evaluator::Evaluator;
+use robopoker::cards::hand::Hand;
+use robopoker::cards::rank::Rank;
+use robopoker::cards::ranking::Ranking;
+use robopoker::cards::strength::Strength;
+use rpharness::*;
+use std::cmp::Ordering;
+use std::sync::atomic::{AtomicUsize, Ordering as AO};
+use std::sync::Mutex;
+
+// ------------------------------------------------------------------ oracle (rules of poker)
+const NAMES: [&str; 9] = ["high-card", "pair", "two-pair", "trips", "straight", "flush", "full-house", "quads", "straight-flush"];
+#[derive(Clone, Copy, PartialEq, Eq, Debug)]
+enum Cat { High = 0, Pair = 1, TwoPair = 2, Trips = 3, Straight = 4, Flush = 5, Full = 6, Quads = 7, StrFlush = 8 }
+
+/// position of a category in the ranking of the configured deck
+fn position(c: Cat, short: bool) -> u32 {
+    match (c, short) {
+        (Cat::Flush, true) => 6,  // short deck: a flush beats a full house
+        (Cat::Full, true) => 5,
+        (c, _) => c as u32,
+    }
+}
+fn cat_of_value(v: u32, short: bool) -> Cat {
+    let p = v >> 20;
+    for c in [Cat::High, Cat::Pair, Cat::TwoPair, Cat::Trips, Cat::Straight, Cat::Flush, Cat::Full, Cat::Quads, Cat::StrFlush] {
+        if position(c, short) == p { return c; }
+    }
+    unreachable!()
+}
+
+/// value of exactly five cards (card = 4*rank + suit, rank 0 = deuce … 12 = ace)
+fn value5(cards: &[u8; 5], short: bool) -> u32 {
+    let mut cnt = [0u8; 13];
+    for &c in cards { cnt[(c / 4) as usize] += 1; }
+    let flush = cards.iter().all(|&c| c % 4 == cards[0] % 4);
+    // distinct ranks ordered by (multiplicity, rank), highest first
+    let mut groups: Vec<(u8, u8)> = (0..13u8).filter(|&r| cnt[r as usize] > 0).map(|r| (cnt[r as usize], r)).collect();
+    groups.sort_by(|a, b| b.cmp(a));
+    let straight_top: Option<u8> = if groups.len() == 5 {
+        let hi = groups[0].1; let lo = groups[4].1;
+        let ranks: Vec<u8> = groups.iter().map(|g| g.1).collect();
+        if hi - lo == 4 { Some(hi) }
+        else if !short && ranks == [12, 3, 2, 1, 0] { Some(3) }       // A-2-3-4-5, five high
+        else if short && ranks == [12, 7, 6, 5, 4] { Some(7) }        // A-6-7-8-9, nine high
+        else { None }
+    } else { None };
+    let pattern: Vec<u8> = groups.iter().map(|g| g.0).collect();
+    let (cat, tb): (Cat, Vec<u8>) = if let (Some(t), true) = (straight_top, flush) { (Cat::StrFlush, vec![t]) }
+        else if pattern == [4, 1] { (Cat::Quads, groups.iter().map(|g| g.1).collect()) }
+        else if pattern == [3, 2] { (Cat::Full, groups.iter().map(|g| g.1).collect()) }
+        else if flush { (Cat::Flush, groups.iter().map(|g| g.1).collect()) }
+        else if let Some(t) = straight_top { (Cat::Straight, vec![t]) }
+        else if pattern == [3, 1, 1] { (Cat::Trips, groups.iter().map(|g| g.1).collect()) }
+        else if pattern == [2, 2, 1] { (Cat::TwoPair, groups.iter().map(|g| g.1).collect()) }
+        else if pattern == [2, 1, 1, 1] { (Cat::Pair, groups.iter().map(|g| g.1).collect()) }
+        else { (Cat::High, groups.iter().map(|g| g.1).collect()) };
+    let mut v = position(cat, short);
+    for i in 0..5 { v = v << 4 | tb.get(i).map(|&r| r as u32 + 2).unwrap_or(0); }
+    v
+}
+
+/// best five-card value of a 5..7-card set, with the five cards that achieve it
+fn best5(bits: u64, short: bool) -> (u32, u64) {
+    let cards: Vec<u8> = (0..64u8).filter(|i| bits >> i & 1 == 1).collect();
+    let n = cards.len();
+    let mut best = (0u32, 0u64);
+    let mut first = true;
+    for a in 0..n { for b in a + 1..n { for c in b + 1..n { for d in c + 1..n { for e in d + 1..n {
+        let five = [cards[a], cards[b], cards[c], cards[d], cards[e]];
+        let v = value5(&five, short);
+        if first || v > best.0 {
+            best = (v, five.iter().fold(0u64, |m, &x| m | 1u64 << x));
+            first = false;
+        }
+    }}}}}
+    best
+}
+
+// ------------------------------------------------------------------ engine side
+fn rank_u8(r: Rank) -> u8 { u8::from(r) }
+fn fields(r: Ranking) -> (u8, u8) {
+    match r {
+        Ranking::HighCard(a) | Ranking::OnePair(a) | Ranking::ThreeOAK(a) | Ranking::Straight(a)
+        | Ranking::Flush(a) | Ranking::FourOAK(a) | Ranking::StraightFlush(a) => (rank_u8(a), 0),
+        Ranking::TwoPair(a, b) | Ranking::FullHouse(a, b) => (rank_u8(a), rank_u8(b)),
+        Ranking::MAX => (0, 0),
+    }
+}
+/// position of the variant in the derived order, measured with the real `Ord`
+fn variant_index(r: Ranking) -> usize {
+    let two = Rank::Two;
+    let mins = [Ranking::HighCard(two), Ranking::OnePair(two), Ranking::TwoPair(two, two), Ranking::ThreeOAK(two),
+        Ranking::Straight(two), Ranking::FullHouse(two, two), Ranking::Flush(two), Ranking::FourOAK(two),
+        Ranking::StraightFlush(two), Ranking::MAX];
+    mins.iter().filter(|m| **m <= r).count() - 1
+}
+struct Eng { s: Strength, idx: usize, r1: u8, r2: u8, kicks: u16, consistent: bool }
+fn engine(bits: u64) -> Option<Eng> {
+    catch(move || {
+        let hand = Hand::from(bits);
+        let s = Strength::from(hand);
+        let e = Evaluator::from(hand);
+        let ranking = e.find_ranking();
+        let kickers = e.find_kickers(ranking);
+        let (r1, r2) = fields(ranking);
+        Eng { s, idx: variant_index(ranking), r1, r2, kicks: u16::from(s.kicks), consistent: Strength::from((ranking, kickers)) == s }
+    })
+}
+fn ord_str(o: Ordering) -> &'static str { match o { Ordering::Less => "Less", Ordering::Equal => "Equal", Ordering::Greater => "Greater" } }
+fn show(bits: u64) -> String { format!("{}", Hand::from(bits)) }
+
+/// class of a disagreement between the engine's and the rules' comparison of two hands
+fn classify(va: u32, vb: u32, eng: Ordering, short: bool) -> &'static str {
+    let (ca, cb) = (cat_of_value(va, short), cat_of_value(vb, short));
+    let top = |v: u32| v >> 16 & 15;
+    if ca == Cat::Flush && cb == Cat::Flush && top(va) == top(vb) && va != vb && eng == Ordering::Equal {
+        "flush-lower-cards-ignored"
+    } else if (ca == Cat::Flush && cb == Cat::Full) || (ca == Cat::Full && cb == Cat::Flush) {
+        "flush-fullhouse-order-swapped"
+    } else if ca != cb {
+        "category-order-differs-from-rules"
+    } else {
+        "tie-break-differs-from-rules"
+    }
+}
+
+#[derive(Default)]
+struct Local { fails: Vec<(String, String, String, String)>, fail_count: std::collections::BTreeMap<String, u64>, checked: u64, evals: u64, dist: std::collections::BTreeMap<String, u64> }
+impl Local {
+    fn fail(&mut self, class: &str, input: String, exp: String, got: String) {
+        let n = self.fail_count.entry(class.to_string()).or_insert(0);
+        *n += 1;
+        if *n <= 5 { self.fails.push((class.to_string(), input, exp, got)); }
+    }
+    fn merge_into(self, run: &mut Run) {
+        run.spec_checked += self.checked;
+        run.evaluations += self.evals;
+        for (k, v) in self.dist { run.count_n(&k, v); }
+        for (c, i, e, g) in self.fails { run.fail(&c, &i, &e, &g); }
+        for (c, n) in self.fail_count { let extra = n.saturating_sub(5.min(n)); run.failure_count += extra; run.count_n(&format!("spec-failures:{c}"), n); }
+    }
+}
+
+/// compare one pair with the engine and the rules
+fn check_pair(l: &mut Local, a: u64, b: u64, sa: &Strength, sb: &Strength, va: u32, vb: u32, short: bool) -> Ordering {
+    let eng = sa.cmp(sb);
+    let want = va.cmp(&vb);
+    l.checked += 1;
+    if eng != want {
+        l.fail(classify(va, vb, eng, short), format!("{} vs {} (bits {a} {b})", show(a), show(b)),
+            format!("{} ({} vs {})", ord_str(want), NAMES[cat_of_value(va, short) as usize], NAMES[cat_of_value(vb, short) as usize]),
+            format!("{} ({:?} vs {:?})", ord_str(eng), sa, sb));
+    }
+    eng
+}
+
+/// next integer with the same number of set bits
+fn gosper(x: u64) -> u64 {
+    let c = x & x.wrapping_neg();
+    let r = x + c;
+    (((r ^ x) >> 2) / c) | r
+}
+
 fn main() {
-    let a = rpharness::args();
-    let mut run = rpharness::Run::new(&a.out);
-    run.rule = "stub".into();
+    let a = args();
+    let mut rng = Rng::new(a.seed);
+    let mut run = Run::new(&a.out);
+    quiet_panics();
+    let short = is_shortdeck();
+    let cfg = if short { "short" } else { "std" };
+    let mask = Hand::mask();
+    let lo = mask.trailing_zeros();
+    let ncards = mask.count_ones();
+    assert!(mask >> lo == (1u64 << ncards) - 1, "deck mask is not contiguous");
+    // the oracle's card decoding agrees with the engine's
+    for i in 0..52u8 {
+        let c = Card::from(i);
+        if u8::from(c.rank()) != i / 4 || u8::from(c.suit()) != i % 4 {
+            run.fail("card-encoding", &format!("card {i}"), &format!("rank {} suit {}", i / 4, i % 4), &format!("{:?}", c));
+        }
+    }
+    let thorough = a.thorough();
+    let n_sample: u64 = if thorough { 3_000_000 } else { 700_000 }; // per size 6, 7
+    run.rule = format!("every {ncards}-choose-5 five-card hand of the configured deck through the real Strength::from(Hand::from(bits)) (exhaustive), plus {n_sample} random 6-card and {n_sample} random 7-card hands{}; oracle: all five-card hands sorted by the rules value and every adjacent pair compared with Strength::cmp, every 6/7-card hand compared with its own best five cards, random and category-boundary pairs; every hand is a non-trivial case; distinct by card set",
+        if thorough { ", and every 6- and 7-card hand against the oracle" } else { "" });
+
+    // ---------------- all five-card hands
+    let mut five: Vec<(u32, u64)> = Vec::with_capacity(2_600_000);
+    let mut dist = [[0u64; 9]; 8];
+    let mut x: u64 = 0b11111;
+    let limit = 1u64 << ncards;
+    let mut main_local = Local::default();
+    while x < limit {
+        let bits = x << lo;
+        run.evaluations += 1;
+        let op = format!("eval {cfg} {bits}");
+        match engine(bits) {
+            None => { run.line(&op, "panic"); run.fail("evaluator-panics", &show(bits), "a strength", "panic"); }
+            Some(e) => {
+                run.line(&op, &format!("{} {} {} {}", e.idx, e.r1, e.r2, e.kicks));
+                if !e.consistent { run.fail("strength-is-not-ranking-plus-kickers", &show(bits), "Strength::from(hand) == Strength::from((find_ranking, find_kickers))", "different"); }
+                let v = value5(&{ let mut c = [0u8; 5]; let mut k = 0; for i in 0..64u8 { if bits >> i & 1 == 1 { c[k] = i; k += 1; } } c }, short);
+                five.push((v, bits));
+                dist[5][cat_of_value(v, short) as usize] += 1;
+                run.distinct(&bits);
+            }
+        }
+        x = gosper(x);
+    }
+    run.exhaustive = true;
+    five.sort();
+    // adjacent pairs in the rules order
+    let strengths: Vec<Strength> = five.iter().map(|&(_, b)| Strength::from(Hand::from(b))).collect();
+    let mut cmp_lines = 0u64;
+    for i in 0..five.len().saturating_sub(1) {
+        let (va, ba) = five[i]; let (vb, bb) = five[i + 1];
+        let eng = check_pair(&mut main_local, ba, bb, &strengths[i], &strengths[i + 1], va, vb, short);
+        // correspondence: every boundary between two distinct values, and every 16th tie
+        if va != vb || i % 16 == 0 {
+            run.line(&format!("cmp {cfg} {ba} {bb}"), ord_str(eng));
+            cmp_lines += 1;
+        }
+    }
+    run.count_n("pairs:adjacent-in-rules-order(all five-card hands)", five.len() as u64 - 1);
+    // value -> first index, for category-boundary and near-value pairs
+    let pick = |rng: &mut Rng, five: &Vec<(u32, u64)>| -> usize { rng.below(five.len() as u64) as usize };
+
+    // ---------------- sampled 6/7-card hands: per-hand check against own best five, correspondence lines
+    let mut sampled: Vec<(u32, u64)> = Vec::new();
+    for k in [6usize, 7] {
+        for _ in 0..n_sample {
+            let bits = rng.cards(k, mask);
+            run.evaluations += 1;
+            let op = format!("eval {cfg} {bits}");
+            match engine(bits) {
+                None => { run.line(&op, "panic"); run.fail("evaluator-panics", &show(bits), "a strength", "panic"); }
+                Some(e) => {
+                    run.line(&op, &format!("{} {} {} {}", e.idx, e.r1, e.r2, e.kicks));
+                    if !e.consistent { run.fail("strength-is-not-ranking-plus-kickers", &show(bits), "Strength::from(hand) == Strength::from((find_ranking, find_kickers))", "different"); }
+                    let (v, sub) = best5(bits, short);
+                    let s5 = Strength::from(Hand::from(sub));
+                    main_local.checked += 1;
+                    if e.s.cmp(&s5) != Ordering::Equal {
+                        main_local.fail("best-five-not-found", format!("{} (bits {bits}), best five {}", show(bits), show(sub)),
+                            format!("Equal to its best five cards ({})", NAMES[cat_of_value(v, short) as usize]), format!("{} ({:?} vs {:?})", ord_str(e.s.cmp(&s5)), e.s, s5));
+                    }
+                    dist[k][cat_of_value(v, short) as usize] += 1;
+                    run.distinct(&bits);
+                    if sampled.len() < 400_000 { sampled.push((v, bits)); }
+                }
+            }
+        }
+    }
+    // ---------------- random pairs (mixed sizes), near-value pairs
+    let n_pairs = if thorough { 2_000_000 } else { 300_000 };
+    for i in 0..n_pairs {
+        let (va, ba) = if i % 2 == 0 { sampled[rng.below(sampled.len() as u64) as usize] } else { five[pick(&mut rng, &five)] };
+        let (vb, bb) = match i % 3 {
+            0 => sampled[rng.below(sampled.len() as u64) as usize],
+            1 => five[pick(&mut rng, &five)],
+            _ => {
+                // a five-card hand whose value is next to va in the rules order
+                let j = five.partition_point(|p| p.0 < va);
+                let j = (j as i64 + rng.range(-3, 3)).clamp(0, five.len() as i64 - 1) as usize;
+                five[j]
+            }
+        };
+        let (sa, sb) = (Strength::from(Hand::from(ba)), Strength::from(Hand::from(bb)));
+        let eng = check_pair(&mut main_local, ba, bb, &sa, &sb, va, vb, short);
+        if i % 3 != 1 || i % 4 == 0 {
+            run.line(&format!("cmp {cfg} {ba} {bb}"), ord_str(eng));
+            cmp_lines += 1;
+        }
+        run.evaluations += 2;
+    }
+    run.count_n("pairs:random-and-near-value", n_pairs as u64);
+    run.count_n("lines:cmp", cmp_lines);
+    // the listed witness of the known finding, always replayed (standard ranks exist in both decks)
+    {
+        let h = |t: &str| u64::from(Hand::try_from(t).unwrap());
+        let (wa, wb) = (h("As Ks Qs Js 9s"), h("Ah Kh Qh Jh 8h"));
+        let (va, vb) = (best5(wa, short).0, best5(wb, short).0);
+        let (sa, sb) = (Strength::from(Hand::from(wa)), Strength::from(Hand::from(wb)));
+        let eng = check_pair(&mut main_local, wa, wb, &sa, &sb, va, vb, short);
+        run.line(&format!("cmp {cfg} {wa} {wb}"), ord_str(eng));
+    }
+
+    // ---------------- thorough: every 6- and 7-card hand against its own best five (threads)
+    if thorough {
+        let results: Mutex<Vec<(Local, [[u64; 9]; 8])>> = Mutex::new(vec![]);
+        let next = AtomicUsize::new(0);
+        // work unit = (size k, index of highest card), biggest first
+        let mut units: Vec<(usize, u32)> = vec![];
+        for top in (0..ncards).rev() { for k in [7usize, 6] { if top as usize >= k - 1 { units.push((k, top)); } } }
+        let nthreads = std::thread::available_parallelism().map(|n| n.get()).unwrap_or(8);
+        std::thread::scope(|sc| {
+            for _ in 0..nthreads {
+                sc.spawn(|| {
+                    let mut l = Local::default();
+                    let mut d = [[0u64; 9]; 8];
+                    loop {
+                        let u = next.fetch_add(1, AO::Relaxed);
+                        if u >= units.len() { break; }
+                        let (k, top) = units[u];
+                        let lim = 1u64 << top;
+                        let mut x: u64 = (1u64 << (k - 1)) - 1;
+                        while x < lim {
+                            let bits = (x | 1u64 << top) << lo;
+                            l.evals += 1;
+                            l.checked += 1;
+                            let (v, sub) = best5(bits, short);
+                            let r = catch(move || (Strength::from(Hand::from(bits)), Strength::from(Hand::from(sub))));
+                            match r {
+                                None => l.fail("evaluator-panics", show(bits), "a strength".into(), "panic".into()),
+                                Some((s, s5)) => if s.cmp(&s5) != Ordering::Equal {
+                                    l.fail("best-five-not-found", format!("{} (bits {bits}), best five {}", show(bits), show(sub)),
+                                        format!("Equal to its best five cards ({})", NAMES[cat_of_value(v, short) as usize]), format!("{} ({:?} vs {:?})", ord_str(s.cmp(&s5)), s, s5));
+                                }
+                            }
+                            d[k][cat_of_value(v, short) as usize] += 1;
+                            x = gosper(x);
+                        }
+                    }
+                    results.lock().unwrap().push((l, d));
+                });
+            }
+        });
+        let mut all = [[0u64; 9]; 8];
+        for (l, d) in results.into_inner().unwrap() {
+            l.merge_into(&mut run);
+            for k in 0..8 { for c in 0..9 { all[k][c] += d[k][c]; } }
+        }
+        for k in [6, 7] { for c in 0..9 { if all[k][c] > 0 { run.count_n(&format!("exhaustive-{k}-cards:{}", NAMES[c]), all[k][c]); } } }
+        run.notes.push("thorough: every 6- and 7-card hand of the configured deck compared with its own best five cards (exhaustive)".into());
+    }
+    main_local.merge_into(&mut run);
+    for k in [5, 6, 7] { for c in 0..9 { if dist[k][c] > 0 { run.count_n(&format!("{k}-cards:{}", NAMES[c]), dist[k][c]); } } }
     run.finish();
 }
